@@ -23,6 +23,11 @@ Command loops of `drv_c01` (core Lean only):
                     (Model/C01Lvalue `compileL`: an lvalue other than a variable read / assigned / compound-assigned at the root:
                      root = `LOAD <t> <lval>` | `LSET <t> <lval> <expr>` | `LOP <op> <t> <lval> <expr>`;
                      lval = `LV <i>` | `LM <d> <lval>` | `LI <i0> <esz> <expr>` | `LD <j>` | `LP <j> <esz> <expr>`)
+  drv_c01 compilea  `<t0,..> <off0,..> <toff0,..> <c0> | <lval> ; <lval> ; … | <prefix expression>`
+                                                                             → `ok <type> <temporaries> <c1> <nc 0|1> <side 0|1> <line;;…>` | `none`
+                    (Model/C01ExprA `compileA`: the variables are the scalar objects, object i is designated by the i-th lvalue of the
+                     table (objects beyond it are plain variables); side = the side conditions of theorem C01_value_lvalues hold: every
+                     accessed object's lvalue passes `lvOK` and the expression assigns none of the variables addresses depend on)
   drv_c01 ptrseq    `<form> <index type> <element size> <offP> <offI> <tmp>`   → `<ins;;…>` | `none`
                     (pointer arithmetic of parse.c new_add / new_sub on a pointer variable at offP(%rbp) and an index (or second
                      pointer) at offI(%rbp): add | sub | diff | addassign | subassign | preinc | predec | postinc | postdec)
@@ -33,6 +38,7 @@ import ChibiVerif.Model.C01Codegen
 import ChibiVerif.Model.C01Expr
 import ChibiVerif.Model.C01ExprJ
 import ChibiVerif.Model.C01Lvalue
+import ChibiVerif.Model.C01ExprA
 
 namespace ChibiVerif.Driver.C01
 open ChibiVerif.Spec.IntSpec ChibiVerif.Gen.CommonType ChibiVerif.C01Codegen ChibiVerif.Asm ChibiVerif.X86J
@@ -400,6 +406,41 @@ def lvalueLine (line : String) : String :=
     | _ => "bad env"
   | _ => "bad line"
 
+open ChibiVerif.C01 in
+def compileALine (line : String) : String :=
+  match line.splitOn "|" with
+  | [hd, tb, ex] =>
+    match words hd with
+    | [ts, os, tos, cs] =>
+      let tys := (csv ts).map ITy.ofString?
+      let offs := (csv os).map String.toInt?
+      let toffs := (csv tos).map String.toInt?
+      if tys.any Option.isNone || offs.any Option.isNone || toffs.any Option.isNone || tys.length ≠ offs.length then "bad env" else
+      let tl := tys.filterMap id
+      let ol := offs.filterMap id
+      let tol := toffs.filterMap id
+      let off : Nat → Int := fun i => ol.getD i 0
+      let lvs := ((tb.splitOn ";").filter (fun x => !x.trimAscii.toString.isEmpty)).map fun x =>
+        match parseLV ((words x).length + 1) (words x) with
+        | some (l, []) => some l
+        | _ => none
+      if lvs.any Option.isNone then "bad table" else
+      let table := lvs.filterMap id
+      let toks := words ex
+      match parseE (toks.length + 1) toks, cs.toNat? with
+      | some (e, []), some c0 =>
+        let A := accOfL tl off table
+        match compileA tl (fun k => tol.getD k 0) A 0 c0 e with
+        | some (t, code, k, c1) =>
+            let os := objs e
+            let D := os.flatMap fun i => rdL (lvOf table i)
+            let side := os.all (fun i => lvOK tl off D (lvOf table i)) && (wr e).all (fun i => !D.contains i)
+            s!"ok {t.toString} {k} {c1} {b01 (noConflict e)} {b01 side} " ++ ";;".intercalate (code.map jiText)
+        | none => "none"
+      | _, _ => "bad expr"
+    | _ => "bad env"
+  | _ => "bad line"
+
 def ptrSeqLine (line : String) : String :=
   match words line with
   | [form, ti, sz, op, oi, tmp] =>
@@ -442,9 +483,10 @@ def main (args : List String) : IO UInt32 := do
   | "compilex" :: _ => loop stdin compileXLine
   | "compilej" :: _ => loop stdin compileJLine
   | "lvalue" :: _ => loop stdin lvalueLine
+  | "compilea" :: _ => loop stdin compileALine
   | "ptrseq" :: _ => loop stdin ptrSeqLine
   | _ =>
-    IO.eprintln "usage: drv_c01 eval|seq|x86exec|ctype|compile|compilex|compilej|lvalue|ptrseq"
+    IO.eprintln "usage: drv_c01 eval|seq|x86exec|ctype|compile|compilex|compilej|lvalue|compilea|ptrseq"
     return 2
 
 end ChibiVerif.Driver.C01
